@@ -315,6 +315,15 @@ def argument_cases():
                     yield lab, sock(2, 17) + ([sysl("poll", 1, x=x)] if blocking else []) + [sysl("recvfrom", "e%d" % E.ECONNREFUSED), "recvfrom 0 8 0"]
                     yield lab, sock() + ([sysl("poll", 1, x=x)] if blocking else []) + [sysl("send", "e%d" % E.EPIPE), "send 0 a1b2"]
                     yield lab, sock() + ([sysl("poll", 1, x=x)] if blocking else []) + [sysl("recv", 2, d="a1b2"), "recv 0 8"]
+    # enumeration arguments outside their range: the code tests `== POLLIN` / `== RCV` and takes the other arm for everything else
+    for c in (0, 3, -1, 2**31 - 1):
+        yield "args/enum", mk_socket(0) + [sysl("poll", 1), "wait 0 %d" % c, sysl("poll", 0), "wait 0 %d" % c]
+    for d in (2, -1, 2**31 - 1, -2**31):
+        yield "args/enum", mk_socket(0) + [sysl("setsockopt", 0), "setbuf 0 %d 4096" % d, sysl("setsockopt", "e%d" % E.ENOBUFS), "setbuf 0 %d 0" % d,
+                                           sysl("setsockopt", 1), "setbuf 0 %d 1" % d]
+    for d in (0, 1):
+        for n in SIZES_EDGE:
+            yield "args/setbuf", mk_socket(0) + [sysl("setsockopt", 0), "setbuf 0 %d %d" % (d, n), sysl("setsockopt", "e%d" % E.EINVAL), "setbuf 0 %d %d" % (d, n)]
     # descriptor 0 is a descriptor
     for fd in (0, 1, 2, 1023, 1024, 4095):          # (the harness tracks close-on-exec for descriptors below 4096)
         yield "args/fd", t_new(fd) + ["new 0 2 1 6", sysl("poll", 1), sysl("recv", 1, d="aa"), "recv 0 4", sysl("close", 0), "close 0"]
